@@ -452,7 +452,17 @@ fn hist_next(e: &mut Trio, rng: &mut Rng, step: u64) -> Option<String> {
                 6 => (v.lps / (1 + rng.below(8) as u128)).max(1),
                 _ => rng.range(1, 100_000) as u128,
             };
-            match rng.below(6) {
+            match rng.below(8) {
+                6 | 7 => {
+                    // direct Swap with nothing attached, every (offer, ask) pair, amounts a real trade would use
+                    let (o, a) = (rng.below(3), rng.below(3));
+                    let x = match rng.below(3) {
+                        0 => amt.max(1),
+                        1 => (v.r[o as usize] / (2 + rng.below(50) as u128)).max(1),
+                        _ => rng.range(1, 1_000_000) as u128,
+                    };
+                    format!("{} sdirect {} {x}", pre(u), o * 3 + a)
+                }
                 0..=3 => {
                     let sel = match rng.below(10) {
                         0..=3 => rng.below(3),
